@@ -12,7 +12,7 @@ import json, os, subprocess, sys
 from lib import vf
 
 MANIFEST = {
-  'text': "Coq theorems over a labelled transition system of concurrentProcess / externalCommand / LintFiles (state: free semaphore slots, WaitGroup counter, phase of every invocation, errgroup of every rule instance, program counters of the file threads and of the main thread; events: every schedule point, any tool behaviour and latency): for every valid trace (every interleaving, every failure pattern, any number of files and invocations) the number of invocations holding a slot never exceeds the capacity, no invocation is started after proc.wait() began, on return every invocation is done, the returned diagnostics are exactly the issues of the invocations (each once, at its step's run: position) and a fatal error is returned iff some invocation failed; every requested invocation belongs to exactly one run step with an applicable effective shell. Pure models: placeholder replacement preserves length and every byte outside placeholders and leaves no placeholder; exit classification; shellcheck / pyflakes output parsing; shell selection by step > job > workflow > runner. Tie to the code: real Linter runs with stand-in tools under taskset (2, 4, all CPUs) with build-tag guarded schedule points in process.go; each observed event trace is replayed on the model inside Coq and the predicted diagnostics / fatal error / per-invocation outcomes are compared with the observed ones; the pure functions are compared on generated inputs. The property itself is evaluated on every run from the stand-in tool's own log.",
+  'text': "Coq theorems over a labelled transition system of concurrentProcess / externalCommand / LintFiles (state: free semaphore slots, WaitGroup counter, phase of every invocation, errgroup of every rule instance, program counters of the file threads and of the main thread; events: every schedule point, any tool behaviour and latency): for every valid trace (every interleaving, every failure pattern, any number of files and invocations) the number of invocations holding a slot never exceeds the capacity, no invocation is started after proc.wait() began, on return every invocation is done, the returned diagnostics are exactly the issues of the invocations (each once, at its step's run: position) and a fatal error is returned iff some invocation failed; every requested invocation belongs to exactly one run step with an applicable effective shell. Pure models: placeholder replacement preserves length and every byte outside placeholders and leaves no placeholder; exit classification; shellcheck / pyflakes output parsing; shell selection by step > job > workflow > runner. Tie to the code: real Linter runs with stand-in tools under taskset (1, 2, 4, all CPUs) with build-tag guarded schedule points in process.go; each observed event trace is replayed on the model inside Coq and the predicted diagnostics / fatal error / per-invocation outcomes are compared with the observed ones; the pure functions are compared on generated inputs. The property itself is evaluated on every run from the stand-in tool's own log.",
   'note': "Trusted: Coq kernel; the hand-written model (validated on observed traces, not proved equal to the Go code); hooks in process.go (positions chosen so that the trace order is a linearisation); harness, stand-in tool. Not modelled: os/exec, the Go scheduler and memory model, encoding/json (its verdict is a model input), golang.org/x/sync internals (their specification is what the transition system assumes and the traces test). Needs repo_patches/proc applied to /repo (two hook patches, one fix).",
   'technique': "machine-checked proof in Coq (invariant induction over event traces of a transition system) + trace validation against the instrumented Go implementation with vm_compute",
  }
@@ -23,7 +23,7 @@ TOOL = os.path.join(vf.HARNESS, 'cmd', 'c20', 'fake_tool.py')
 
 def cpu_sets():
     av = sorted(os.sched_getaffinity(0))
-    sets = []
+    sets = [av[:1]]      # a machine (container, cpuset) with ONE CPU: at most one tool process at a time
     if len(av) >= 2:
         sets.append(av[:2])
     if len(av) >= 6:
@@ -43,16 +43,16 @@ def run(ctx):
     thorough = ctx.thorough()
     # start the real runs first (they mostly sleep), prove meanwhile
     groups = []
-    per = [40, 40, 30] if not thorough else [1500, 1500, 1000]
+    per = [20, 40, 40, 30] if not thorough else [600, 1500, 1500, 1000]
     for g, cpus in enumerate(cpu_sets()):
         out = os.path.join(ctx.out, 'g%d' % g)
         cmd = ['taskset', '-c', ','.join(map(str, cpus)), exe, '-mode', 'runs', '-seed', str(ctx.seed * 16 + g),
                '-n', str(per[min(g, len(per) - 1)]), '-cap', str(len(cpus)), '-python', sys.executable, '-tool', TOOL,
                '-out', out, '-tier', ctx.tier]
         env = dict(os.environ)
-        if g == 0:
+        if len(cpus) <= 2:
             # the bound is the number of CPUs of the machine (here: of the taskset), not the number of
-            # OS threads the Go scheduler may use: run the smallest set with GOMAXPROCS four times larger
+            # OS threads the Go scheduler may use: run the smallest sets with GOMAXPROCS four times larger
             env['GOMAXPROCS'] = str(4 * len(cpus))
         groups.append((out, len(cpus), subprocess.Popen(cmd, stdout=subprocess.PIPE, stderr=subprocess.STDOUT, text=True, env=env)))
     pout = os.path.join(ctx.out, 'pure')
